@@ -55,6 +55,18 @@ CHECKS = {
             "runtime module is compared byte for byte with the file shipped in the generator.",
             "Allowed roots: stdlib of the running interpreter, httpx, cattrs/attrs, typing_extensions, the package, its core, their ancestors.",
             "4 C12"),
+    "C13": ("exploration", "bounded exhaustive enumeration of operation-shape pairs x tag patterns; introspective comparison of client / Protocol / mock in the runtime-only interpreter",
+            "Every ordered pair of 7 operation shapes (plain, optional params, overloads, byte stream, SSE, long wrapped signature, body+params) x 9 tag patterns is generated, "
+            "imported and compared by inspect.signature (names, order, kinds, defaults, annotation text, return), call nature, isinstance against the runtime_checkable Protocol, "
+            "NotImplementedError behaviour of every mock method and tag-property parity of MockAPIClient.",
+            "Annotation equality is textual; documents with more than 3 operations are outside the bound.",
+            "4 C13"),
+    "C07": ("exploration", "bounded exhaustive enumeration of operation sets x tag patterns x operationId patterns x naming strategies x renderings; behavioural identification of every generated method",
+            "Every operation set of the bounded space is generated and every public async method of every tag client reachable from APIClient is called against an in-memory "
+            "server; operations are identified by the (method, path) actually hit, never by name. Each operation must be hit by exactly one method on exactly one client per tag, "
+            "tags map consistently and injectively to clients, no method is dead or stray, names are valid identifiers and follow the naming strategy.",
+            "Tag normalisation (case/punctuation variants are one tag) is re-implemented in the oracle; more than 4 operations per document are outside the bound.",
+            "4 C07"),
 }
 
 NOT_YET = {}
